@@ -1,6 +1,7 @@
 (* C20 - GammaWindow: length, non-negativity, "is the time-reversed gamma density",
    position of the maximum. *)
 From Coq Require Import Reals ZArith List Bool Lia Lra.
+Set Warnings "-ambiguous-paths".
 From Verif Require Import lib.C20_Numpy gen.WinHelp C20.Model.
 Import ListNotations.
 Open Scope R_scope.
